@@ -24,7 +24,7 @@ UInf == 1000000000
 UFInit == [abort |-> FALSE, data |-> <<>>, g |-> 0, p |-> 0, gc |-> 0,
            end |-> UInf, buf |-> UInf, C |-> 131072, rd |-> "good"]
 
-Min(a, b) == IF a < b THEN a ELSE b
+MinI(a, b) == IF a < b THEN a ELSE b
 
 (* logContainerContaining(pos): index of the FIRST container with pos in [pos, pos+size), 0 if none *)
 RECURSIVE ContainingFrom(_, _, _)
@@ -42,7 +42,7 @@ ReadLoop(data, g, n, gc) ==
   IF n <= 0 THEN [g |-> g, gc |-> gc]
   ELSE LET i == Containing(data, g) IN
        IF i = 0 THEN [g |-> g, gc |-> gc]
-       ELSE LET k == Min(n, data[i].size - (g - data[i].pos)) IN
+       ELSE LET k == MinI(n, data[i].size - (g - data[i].pos)) IN
             ReadLoop(data, g + k, n - k, gc + k)
 
 UFRead(uf, n) ==
@@ -53,7 +53,7 @@ UFRead(uf, n) ==
   \* notifies tellgChanged
 
 (* ---- seekg(off, cur): clamps at the declared end only; notifies tellgChanged ---- *)
-UFSeekg(uf, off) == [uf EXCEPT !.g = Min(uf.g + off, uf.end)]
+UFSeekg(uf, off) == [uf EXCEPT !.g = MinI(uf.g + off, uf.end)]
 
 (* ---- write(s, n): back-pressure evaluated once per call (signed difference) ---- *)
 UFWritePred(uf) == uf.abort \/ (uf.p - uf.g) < uf.buf
@@ -66,7 +66,7 @@ WriteLoop(data, p, n, C) ==
          THEN \* append a container of the default size; the first container of an empty list sits at 0
               LET np == IF data = <<>> THEN 0 ELSE data[Len(data)].pos + data[Len(data)].size
               IN WriteLoop(Append(data, [pos |-> np, size |-> C]), p, n, C)
-         ELSE LET k == Min(n, data[i].size - (p - data[i].pos)) IN
+         ELSE LET k == MinI(n, data[i].size - (p - data[i].pos)) IN
               WriteLoop(data, p + k, n - k, C)
 
 UFWrite(uf, n) ==
